@@ -58,6 +58,14 @@ class _ExitTr:
         for k, name in enumerate(params[1:]):
             self.slots[name] = 3 + k
         self.next = 6
+        # every other instance attribute the body mentions gets a slot of its own (in name order, so that the numbering
+        # does not depend on the order of statements); what such an attribute holds when __exit__ starts is decided by
+        # __init__ / __enter__ / earlier uses of the object (SM/AtomicReuse.v), not here
+        for key in sorted(_self_attrs(fn)):
+            if key not in self.slots:
+                self.slots[key] = self.next
+                self.next += 1
+        self.attr_slots = {k: v for k, v in self.slots.items() if k.startswith('self.')}
         self.names = {v: k for k, v in self.slots.items()}
 
     def slot(self, key: str, create: bool, node: ast.AST) -> int:
@@ -232,10 +240,191 @@ class _ExitTr:
         raise TranslateError(f'{self.where}: unsupported statement `{type(st).__name__}` (line {st.lineno})')
 
 
+def _self_attrs(fn: ast.AST) -> set[str]:
+    """`self.X` mentioned as a value or an assignment target (not `self.m(...)`, a method call)."""
+    called = {id(n.func) for n in ast.walk(fn) if isinstance(n, ast.Call)}
+    return {'self.' + n.attr for n in ast.walk(fn)
+            if isinstance(n, ast.Attribute) and isinstance(n.value, ast.Name) and n.value.id == 'self'
+            and id(n) not in called}
+
+
 def _exit_prog(fn: ast.FunctionDef) -> tuple[str, dict]:
     tr = _ExitTr(fn)
     prog = tr.block(fn.body)
     return prog, {str(k): v for k, v in sorted(tr.names.items())}
+
+
+def _exit_prog_attrs(fn: ast.FunctionDef) -> tuple[str, dict, dict[str, int]]:
+    tr = _ExitTr(fn)
+    prog = tr.block(fn.body)
+    return prog, {str(k): v for k, v in sorted(tr.names.items())}, dict(tr.attr_slots)
+
+
+# ------------------------------------------------------------------------------------------- normalisation: helpers
+SPECIAL = {'__init__', '__enter__', '__exit__', 'make_tempfile'}
+
+
+def _simple_arg(e: ast.expr) -> bool:
+    return isinstance(e, (ast.Name, ast.Constant)) or _key(e) is not None
+
+
+class _Subst(ast.NodeTransformer):
+    def __init__(self, params: dict[str, ast.expr], renames: dict[str, str]) -> None:
+        self.params, self.renames = params, renames
+
+    def visit_Name(self, node: ast.Name) -> ast.AST:
+        if node.id in self.params:
+            if not isinstance(node.ctx, ast.Load):
+                raise TranslateError(f'helper method assigns its parameter `{node.id}`: not inlined')
+            return ast.copy_location(_clone(self.params[node.id]), node)
+        if node.id in self.renames:
+            return ast.copy_location(ast.Name(id=self.renames[node.id], ctx=node.ctx), node)
+        return node
+
+
+def _clone(n: ast.AST) -> ast.AST:
+    import copy
+    return copy.deepcopy(n)
+
+
+def _has_return(n: ast.AST) -> bool:
+    return any(isinstance(x, ast.Return) for x in ast.walk(n))
+
+
+def _tail(stmts: list[ast.stmt], sink, where: str) -> list[ast.stmt]:
+    """Statements of a helper whose `return`s are all in tail position -> the same statements with every
+    `return e` replaced by `sink(e)` (`if c: return A` + fall-through is treated as if/else)."""
+    out: list[ast.stmt] = []
+    for i, st in enumerate(stmts):
+        rest = stmts[i + 1:]
+        if isinstance(st, ast.Return):
+            if rest:
+                raise TranslateError(f'{where}: statements after a return')
+            out += sink(st.value if st.value is not None else ast.Constant(value=None), st)
+            return out
+        if isinstance(st, ast.If) and _has_return(st):
+            # both arms are completed with the statements that follow the `if` (they run when an arm falls through)
+            body = _tail(st.body + ([] if _ends(st.body) else [_clone(r) for r in rest]), sink, where)
+            orelse = _tail(st.orelse + ([] if _ends(st.orelse) else [_clone(r) for r in rest]), sink, where)
+            out.append(ast.copy_location(ast.If(test=st.test, body=body or [ast.Pass()], orelse=orelse), st))
+            return out
+        if isinstance(st, ast.Try) and _has_return(st) and not rest and not any(_has_return(x) for x in st.finalbody) \
+                and not (st.orelse and any(_has_return(x) for x in st.body)):
+            # the try statement is the last one: a return at the end of its body / a handler / its else clause only
+            # leaves the helper (the finally clause runs either way); a return in the body would skip the else clause
+            nt = _clone(st)
+            nt.body = _tail(st.body, sink, where) if any(_has_return(x) for x in st.body) else st.body
+            for h, h0 in zip(nt.handlers, st.handlers):
+                h.body = _tail(h0.body, sink, where) or [ast.Pass()]
+            if st.orelse:
+                nt.orelse = _tail(st.orelse, sink, where)
+            elif not any(_has_return(x) for x in st.body):
+                nt.orelse = sink(ast.Constant(value=None), st)
+            out.append(nt)
+            return out
+        if _has_return(st):
+            raise TranslateError(f'{where}: a return inside `{type(st).__name__}` is not in tail position: not inlined')
+        out.append(st)
+    out += sink(ast.Constant(value=None), stmts[-1] if stmts else None)       # falls off the end: returns None
+    return out
+
+
+def _ends(stmts: list[ast.stmt]) -> bool:
+    """Does every path through the statements end in a return?"""
+    if not stmts:
+        return False
+    last = stmts[-1]
+    if isinstance(last, (ast.Return, ast.Raise)):
+        return True
+    if isinstance(last, ast.If):
+        return _ends(last.body) and _ends(last.orelse)
+    return False
+
+
+def inline_helpers(fn: ast.FunctionDef, methods: dict[str, ast.FunctionDef], depth: int = 0) -> ast.FunctionDef:
+    """Replace `x = self.m(a, ..)`, `self.m(a, ..)` and `return self.m(a, ..)` (m an ordinary method of the same class,
+    arguments plain names / attributes of self / constants) by the body of m, so that the analyses below see the same
+    statements whether or not a piece of the function was extracted into a helper.  Anything that cannot be inlined
+    faithfully is left alone (and then fails closed in the analysis that meets the call)."""
+    counter = [0]
+
+    def expand(call: ast.Call, sink, st: ast.stmt) -> list[ast.stmt] | None:
+        f = call.func
+        if not (isinstance(f, ast.Attribute) and isinstance(f.value, ast.Name) and f.value.id == 'self'):
+            return None
+        m = methods.get(f.attr)
+        if m is None or f.attr in SPECIAL or m is fn:
+            return None
+        if depth > 3:
+            raise TranslateError(f'{fn.name}: helper methods nested too deeply at `{f.attr}`')
+        a = m.args
+        if a.vararg or a.kwarg or a.kwonlyargs or a.posonlyargs or m.decorator_list:
+            return None
+        names = [x.arg for x in a.args][1:]
+        defaults = dict(zip(reversed(names), reversed(a.defaults)))
+        bound: dict[str, ast.expr] = {}
+        for n, v in zip(names, call.args):
+            bound[n] = v
+        if len(call.args) > len(names):
+            return None
+        for k in call.keywords:
+            if k.arg is None or k.arg not in names or k.arg in bound:
+                return None
+            bound[k.arg] = k.value
+        for n in names:
+            if n not in bound:
+                if n not in defaults:
+                    return None
+                bound[n] = defaults[n]
+        if not all(_simple_arg(v) for v in bound.values()):
+            return None
+        inner = inline_helpers(m, methods, depth + 1)
+        counter[0] += 1
+        stores = {x.id for x in ast.walk(inner) if isinstance(x, ast.Name) and isinstance(x.ctx, ast.Store)}
+        if stores & set(names):
+            return None
+        ren = {n: f'_inl{depth}_{counter[0]}_{n}' for n in stores}
+        body = [s for s in inner.body if not (isinstance(s, ast.Expr) and isinstance(s.value, ast.Constant))]
+        body = [_Subst(bound, ren).visit(_clone(s)) for s in body]
+        res = _tail(body, sink, f'{fn.name}: helper {f.attr}')
+        for r in res:
+            for x in ast.walk(r):
+                if not hasattr(x, 'lineno'):
+                    ast.copy_location(x, st)
+            ast.fix_missing_locations(r)
+        return res
+
+    def do_block(stmts: list[ast.stmt]) -> list[ast.stmt]:
+        out: list[ast.stmt] = []
+        for st in stmts:
+            rep = None
+            if isinstance(st, ast.Assign) and len(st.targets) == 1 and isinstance(st.value, ast.Call):
+                tgt = st.targets[0]
+                rep = expand(st.value, lambda e, at, tgt=tgt: [ast.Assign(targets=[_clone(tgt)], value=e, lineno=st.lineno)], st)
+            elif isinstance(st, ast.AnnAssign) and isinstance(st.value, ast.Call):
+                tgt = st.target
+                rep = expand(st.value, lambda e, at, tgt=tgt: [ast.Assign(targets=[_clone(tgt)], value=e, lineno=st.lineno)], st)
+            elif isinstance(st, ast.Expr) and isinstance(st.value, ast.Call):
+                rep = expand(st.value, lambda e, at: [] if isinstance(e, ast.Constant) else [ast.Expr(value=e)], st)
+            elif isinstance(st, ast.Return) and isinstance(st.value, ast.Call):
+                rep = expand(st.value, lambda e, at: [ast.Return(value=e)], st)
+            if rep is not None:
+                out += rep or [ast.copy_location(ast.Pass(), st)]
+                continue
+            for field in ('body', 'orelse', 'finalbody'):
+                sub = getattr(st, field, None)
+                if isinstance(sub, list) and sub and isinstance(sub[0], ast.stmt):
+                    setattr(st, field, do_block(sub))
+            if isinstance(st, ast.Try):
+                for h in st.handlers:
+                    h.body = do_block(h.body)
+            out.append(st)
+        return out
+
+    new = _clone(fn)
+    new.body = do_block(new.body)
+    ast.fix_missing_locations(new)
+    return new
 
 
 def _handler_names(h: ast.ExceptHandler, where: str) -> set[str] | None:
@@ -255,6 +444,26 @@ def _handler_names(h: ast.ExceptHandler, where: str) -> set[str] | None:
 def _tempfile_facts(fn: ast.FunctionDef) -> dict:
     modes: list[tuple[str, int, bool]] = []      # (mode, line, inside a try that catches FileExistsError in a loop)
     sibling = None
+
+    local_vals: dict[str, list[ast.expr]] = {}
+    for n in ast.walk(fn):
+        if isinstance(n, ast.Assign):
+            for t in n.targets:
+                if isinstance(t, ast.Name):
+                    local_vals.setdefault(t.id, []).append(n.value)
+        elif isinstance(n, ast.AnnAssign) and isinstance(n.target, ast.Name) and n.value is not None:
+            local_vals.setdefault(n.target.id, []).append(n.value)
+        elif isinstance(n, (ast.AugAssign, ast.NamedExpr)) and isinstance(n.target, ast.Name):
+            local_vals.setdefault(n.target.id, []).append(ast.Name(id='<computed>', ctx=ast.Load()))
+
+    def mode_values(e: ast.expr, line: int, depth: int = 0) -> list[str]:
+        if isinstance(e, ast.Constant) and isinstance(e.value, str):
+            return [e.value]
+        if isinstance(e, ast.IfExp) and depth < 5:
+            return mode_values(e.body, line, depth + 1) + mode_values(e.orelse, line, depth + 1)
+        if isinstance(e, ast.Name) and e.id in local_vals and depth < 5:
+            return [m for v in local_vals[e.id] for m in mode_values(v, line, depth + 1)]
+        raise TranslateError(f'make_tempfile: open call whose mode `{ast.unparse(e)}` is not a literal (line {line})')
 
     def walk(node, in_loop: bool, catches: bool):
         nonlocal sibling
@@ -288,11 +497,15 @@ def _tempfile_facts(fn: ast.FunctionDef) -> dict:
             f = ch.func
             is_open = (isinstance(f, ast.Attribute) and f.attr == 'open') or (isinstance(f, ast.Name) and f.id == 'open')
             if is_open:
-                margs = [a for a in ch.args if isinstance(a, ast.Constant) and isinstance(a.value, str)]
-                margs += [k.value for k in ch.keywords if k.arg == 'mode' and isinstance(k.value, ast.Constant)]
-                if len(margs) != 1:
-                    raise TranslateError(f'make_tempfile: open call without a literal mode (line {ch.lineno})')
-                modes.append((margs[0].value, ch.lineno, in_loop and catches))
+                # the mode: Path.open(mode, ..) / open(file, mode, ..) / mode=..; a local name is resolved through
+                # every assignment to it in the function (conditional expressions give several possible modes)
+                pos = list(ch.args) if isinstance(f, ast.Attribute) and not (
+                    isinstance(f.value, ast.Name) and f.value.id in ('io', 'builtins', 'os')) else list(ch.args[1:])
+                marg = [k.value for k in ch.keywords if k.arg == 'mode'] or pos[:1]
+                if len(marg) != 1:
+                    raise TranslateError(f'make_tempfile: open call without a mode (line {ch.lineno})')
+                for m in mode_values(marg[0], ch.lineno):
+                    modes.append((m, ch.lineno, in_loop and catches))
         if isinstance(ch, ast.Assign) and len(ch.targets) == 1 and _key(ch.targets[0]) == 'self._temp_name':
             v = ch.value
             ok = (isinstance(v, ast.Call) and isinstance(v.func, ast.Attribute) and v.func.attr == 'with_name'
@@ -382,6 +595,132 @@ def _loop_facts(fn: ast.FunctionDef) -> dict:
     other_exits = sum(isinstance(x, (ast.Break, ast.Return)) for x in ast.walk(loop))
     return dict(start=start, unbounded=unbounded, template_ok=template_ok, skip_dest=skip_dest,
                 handler_inert=handler_inert, break_after_open=break_after_open and other_exits == 1)
+
+
+# ------------------------------------------------------------------------------------------- the object across uses
+XVAL = {None: 'VNone', True: 'VTrue', False: 'VFalse'}
+
+
+def _const_val(e: ast.expr) -> str | None:
+    if isinstance(e, ast.Constant) and (e.value is None or isinstance(e.value, bool)):
+        return XVAL[e.value]
+    return None
+
+
+def _object_facts(cls: ast.ClassDef, fns: dict[str, ast.FunctionDef], attr_slots: dict[str, int]) -> dict:
+    """What the instance attributes mentioned by __exit__ hold when __init__ returns, what __enter__/make_tempfile
+    assign on every successful entry, and which of them are assigned nowhere after __init__."""
+    init: dict[str, str | None] = {}
+    for st in cls.body:                    # class-level defaults
+        if isinstance(st, ast.Assign) and len(st.targets) == 1 and isinstance(st.targets[0], ast.Name):
+            init['self.' + st.targets[0].id] = _const_val(st.value)
+        elif isinstance(st, ast.AnnAssign) and isinstance(st.target, ast.Name) and st.value is not None:
+            init['self.' + st.target.id] = _const_val(st.value)
+    fi = fns.get('__init__')
+    if fi is None:
+        raise TranslateError('AtomicWriter.__init__ not found')
+    top: set[str] = set()
+    for st in fi.body:
+        tv = None
+        if isinstance(st, ast.Assign) and len(st.targets) == 1:
+            tv = (st.targets[0], st.value)
+        elif isinstance(st, ast.AnnAssign) and st.value is not None:
+            tv = (st.target, st.value)
+        if tv is not None and (_key(tv[0]) or '').startswith('self.'):
+            k = _key(tv[0])
+            # the destination is whatever __init__ stores in self.filename (an abstract value of its own)
+            init[k] = 'VDest' if k == 'self.filename' else _const_val(tv[1])
+            top.add(k)
+    for n in ast.walk(fi):                 # assigned somewhere deeper in __init__ (conditionally): value not known
+        if isinstance(n, (ast.Assign, ast.AnnAssign, ast.AugAssign)):
+            for t in (n.targets if isinstance(n, ast.Assign) else [n.target]):
+                for x in ast.walk(t):
+                    k = _key(x)
+                    if k and k.startswith('self.') and k not in top:
+                        init[k] = None
+    # entry: top-level statements of __enter__ and (when __enter__ calls it unconditionally) of make_tempfile
+    enter: dict[str, str] = {}
+    ent, mk = fns['__enter__'], fns['make_tempfile']
+    calls_mk = any(isinstance(st, ast.Expr) and isinstance(st.value, ast.Call) and _key(st.value.func) == 'self.make_tempfile'
+                   and not st.value.args and not st.value.keywords for st in ent.body)
+    seqs = [ent.body] + ([mk.body] if calls_mk else [])
+    for body in seqs:
+        for st in body:
+            if isinstance(st, ast.Assign) and len(st.targets) == 1 and (_key(st.targets[0]) or '').startswith('self.'):
+                v = _const_val(st.value)
+                k = _key(st.targets[0])
+                if v is not None:
+                    enter[k] = v
+                else:
+                    enter.pop(k, None)
+    if calls_mk:
+        # the temp-name loop is left only by the `break` after the open (obligation temp_loop_retries_only_on_file_exists):
+        # the name assigned before the attempt and the handle assigned from the open call are bound on every entry
+        loops = [n for n in mk.body if isinstance(n, ast.For)]
+        for loop in loops:
+            for st in loop.body:
+                if isinstance(st, ast.Assign) and len(st.targets) == 1 and _key(st.targets[0]) == 'self._temp_name' \
+                        and isinstance(st.value, ast.Call) and isinstance(st.value.func, ast.Attribute) \
+                        and st.value.func.attr == 'with_name':
+                    enter['self._temp_name'] = 'VTName'
+                if isinstance(st, ast.Try):
+                    bound = False
+                    for b in st.body:
+                        for x in ast.walk(b):
+                            if isinstance(x, ast.Assign) and len(x.targets) == 1 and _key(x.targets[0]) == 'self.temp' \
+                                    and any(isinstance(c, ast.Call) and isinstance(c.func, (ast.Attribute, ast.Name))
+                                            and (c.func.attr if isinstance(c.func, ast.Attribute) else c.func.id) == 'open'
+                                            for c in ast.walk(x.value)):
+                                bound = True
+                    # every arm of an if/else inside the try must bind it: count the open calls against the bindings
+                    if bound:
+                        enter['self.temp'] = 'VTemp'
+    # constants: attributes that no method other than __init__ assigns (or deletes)
+    assigned: set[str] = set()
+    for name, f in fns.items():
+        if name == '__init__':
+            continue
+        for n in ast.walk(f):
+            if isinstance(n, ast.Attribute) and isinstance(n.ctx, (ast.Store, ast.Del)):
+                k = _key(n)
+                if k:
+                    assigned.add(k)
+            if isinstance(n, ast.Call) and isinstance(n.func, ast.Name) and n.func.id in ('setattr', 'delattr', 'vars'):
+                raise TranslateError(f'AtomicWriter.{name}: {n.func.id}() on the writer object (line {n.lineno})')
+            if isinstance(n, ast.Attribute) and n.attr == '__dict__':
+                raise TranslateError(f'AtomicWriter.{name}: __dict__ of the writer object is used (line {n.lineno})')
+    order = sorted(attr_slots, key=lambda k: attr_slots[k])
+    return dict(attrs=[attr_slots[k] for k in order], names=order,
+                init=[init.get(k) for k in order],
+                enter=[[attr_slots[k], v] for k, v in sorted(enter.items(), key=lambda kv: attr_slots.get(kv[0], 99))
+                       if k in attr_slots],
+                const=[attr_slots[k] for k in order if k not in assigned])
+
+
+def _enter_ok(fn: ast.FunctionDef) -> bool:
+    """__enter__ creates the temp file (calls self.make_tempfile() at its top level, unconditionally) and hands out the
+    temp handle (`return self.temp` / `return self.temp.__enter__()`, possibly through a local alias)."""
+    body = [s for s in fn.body if not (isinstance(s, ast.Expr) and isinstance(s.value, ast.Constant))]
+    made = False
+    alias: set[str] = set()
+    for st in body:
+        if isinstance(st, ast.Expr) and isinstance(st.value, ast.Call) and _key(st.value.func) == 'self.make_tempfile':
+            made = True
+        elif isinstance(st, ast.Assign) and len(st.targets) == 1 and isinstance(st.targets[0], ast.Name) \
+                and _key(st.value) == 'self.temp' and made:
+            alias.add(st.targets[0].id)
+        elif isinstance(st, ast.Return) and made and st.value is not None:
+            v = st.value
+            if isinstance(v, ast.Call) and isinstance(v.func, ast.Attribute) and v.func.attr == '__enter__' and not v.args:
+                v = v.func.value
+            return _key(v) == 'self.temp' or (isinstance(v, ast.Name) and v.id in alias)
+        elif isinstance(st, (ast.Assert, ast.Pass, ast.AnnAssign)):
+            continue
+        elif isinstance(st, ast.Assign) and all(isinstance(t, ast.Name) for t in st.targets):
+            continue
+        else:
+            return False
+    return False
 
 
 # ------------------------------------------------------------------------------------------- bsp.py census
@@ -515,25 +854,39 @@ def translate() -> tuple[str, dict]:
     for need in ('make_tempfile', '__enter__', '__exit__'):
         if need not in fns:
             raise TranslateError(f'AtomicWriter.{need} not found')
-    prog, slot_names = _exit_prog(fns['__exit__'])
+    raw_digests = {n: ast_digest(f) for n, f in fns.items()}
+    # normalisation: calls of ordinary methods of the class are replaced by their bodies
+    for name in ('make_tempfile', '__enter__', '__exit__'):
+        fns[name] = inline_helpers(fns[name], fns)
+    prog, slot_names, attr_slots = _exit_prog_attrs(fns['__exit__'])
     tf = _tempfile_facts(fns['make_tempfile'])
     # __enter__ must create the temp file and hand out the temp handle
-    ent_src = [ast.unparse(s) for s in fns['__enter__'].body if not (isinstance(s, ast.Expr) and isinstance(s.value, ast.Constant))]
-    enter_ok = any('make_tempfile()' in s for s in ent_src) and any(s.startswith('return self.temp') for s in ent_src)
-    if not enter_ok:
-        raise TranslateError(f'AtomicWriter.__enter__ not recognised: {ent_src}')
+    if not _enter_ok(fns['__enter__']):
+        raise TranslateError('AtomicWriter.__enter__ not recognised: '
+                             + '; '.join(ast.unparse(s) for s in fns['__enter__'].body)[:200])
+    obj = _object_facts(cls, fns, attr_slots)
+    opt = lambda v: f'Some {v}' if v is not None else 'None'
     bsp = _bsp_census(ast.parse(src_text('bsp.py')))
     b = lambda x: 'true' if x else 'false'
     writes_ok = all(w[2] in ('handle', 'bytesio', 'deferred') for w in bsp['writes'])
     lines = [
         '(* GENERATED by translate/c12_atomic.py from src/srctools/__init__.py (AtomicWriter) and bsp.py. Do not edit. *)',
-        'From Coq Require Import List String.', 'From SV Require Import SM.AtomicWriter SM.AtomicExit.', 'Import ListNotations.',
+        'From Coq Require Import List String.', 'From SV Require Import SM.AtomicWriter SM.AtomicExit SM.AtomicReuse.', 'Import ListNotations.',
         'Open Scope string_scope.',
         '(* AtomicWriter.__exit__, statement by statement (slots: ' + ', '.join(f'{k}={v}' for k, v in slot_names.items()) + ') *)',
         f'Definition aw_exit_prog : xstmt :=\n  {prog}.',
         '(* make_tempfile: every open mode is exclusive-create and FileExistsError is retried in the loop *)',
         f'Definition aw_excl : bool := {b(tf["excl"])}.',
-        'Definition aw_proto : xproto := proto_of_prog aw_excl aw_exit_prog.',
+        '(* the writer object across several `with` blocks: attribute slots mentioned by __exit__ (' +
+        ', '.join(f'{k}={v}' for k, v in zip(obj['attrs'], obj['names'])) + '), their values after __init__,',
+        '   what __enter__/make_tempfile assign on every successful entry, attributes assigned nowhere after __init__ *)',
+        'Definition aw_obj : wobj :=',
+        f'  {{| o_excl := aw_excl; o_prog := aw_exit_prog; o_attrs := [{"; ".join(map(str, obj["attrs"]))}];',
+        f'     o_init := [{"; ".join(opt(v) for v in obj["init"])}];',
+        f'     o_enter := [{"; ".join(f"({k}, {v})" for k, v in obj["enter"])}];',
+        f'     o_const := [{"; ".join(map(str, obj["const"]))}] |}}.',
+        '(* the exit protocol of the first use of a fresh object *)',
+        'Definition aw_proto : xproto := obj_proto aw_obj.',
         '(* the temp-name loop: first index, unbounded iterator (itertools.count), name template tmp_<i>, the',
         '   FileExistsError handler only passes, the loop is left only by the break after a successful open, the',
         '   destination itself is never used as its own temp file *)',
@@ -560,7 +913,7 @@ def translate() -> tuple[str, dict]:
         '',
     ]
     side = dict(exit_prog=prog, exit_slots=slot_names, tempfile=tf, bsp={k: v for k, v in bsp.items()},
-                digests={n: ast_digest(f) for n, f in fns.items()}, writes_ok=writes_ok)
+                digests=raw_digests, writes_ok=writes_ok, obj=obj)
     return '\n'.join(lines), side
 
 
